@@ -32,6 +32,12 @@ def _mkwnd(kind, w, size, keep=None):
     l = list(w[:size])                      # a window function may hand out the very same list every time (memoised)
     if keep is not None: keep.append(l)
     return lambda n: l
+  if kind == "callable-iterable":
+    # a window *function* object that can also be iterated (like the window / wsymm strategy dictionaries, which are
+    # dict subclasses): it is a callable window, what iterating it gives is not the window
+    class WindowFamily(dict):
+      def __call__(self, n): return list(w[:n])
+    return WindowFamily(hann=len, rect=max, other=min)
   raise ValueError(kind)
 
 
@@ -218,6 +224,14 @@ def h_stft(ctx, cfg):
     ctx.prove(n < len(out), "stft:enough-output")
     if n < len(out):
       ctx.prove(ctx.eq(out[n], x[n]), "identity-stft-reconstructs-input", "n=%d" % n)
+  # a processor is reusable: calling it again (no keyword given, or the same ones) does the same thing
+  if cfg.get("wkind", "list") != "gen":
+    del seen[:]; del ola_calls[:]
+    again = list(wrapped(list(x), size=size, hop=hop) if style == "partial" else wrapped(list(x)))
+    ctx.prove(len(again) == len(out) and (And(*[ctx.eq(a, b) for a, b in zip(again, out)]) if out else True),
+              "processor-can-be-called-again", "second call: %d samples, first: %d" % (len(again), len(out)))
+    ctx.prove(len(ola_calls) == 1 and ola_calls[0] == {"size": size, "hop": hop, "normalize": False},
+              "only-ola_-options-reach-the-overlap-add", "second call: ola got %r" % (ola_calls,))
 
 
 def h_stft_args(ctx, cfg):
@@ -260,6 +274,8 @@ def tasks(tier, seed):
         cfg["M"] = 2
         T.append(("h_ola", dict(cfg, wpos=True, M=M)))
       T.append(("h_ola", cfg))
+  T.append(("h_ola", {"S": 4, "M": 3, "wnd": "callable-iterable", "normalize": False}))
+  T.append(("h_ola", {"S": 3, "M": 2, "wnd": "callable-iterable", "normalize": True, "wpos": True}))
   T.append(("h_ola", {"S": S, "M": M, "wnd": "list", "normalize": False, "detect": True}))
   T.append(("h_ola", {"S": S, "M": M, "wnd": "none", "normalize": True, "detect": True, "lazy": False}))
   T.append(("h_ola", {"S": S, "M": M, "wnd": "none", "normalize": False, "hopdefault": True}))
